@@ -199,6 +199,16 @@ val res_state : result -> state -> state
 
 val run : config -> state -> op list -> result list
 
+type init_data = { d_parents : nat option list; d_indices : nat list;
+                   d_secondary_counts : nat list; d_vacancies : nat list;
+                   d_track_counters : nat list; d_initializers : nat }
+
+val resize_init_data : config -> init_data
+
+val data_assigned : init_data -> bool
+
+val construct_state : config -> (state * init_data) option
+
 val enc_opt : nat option -> nat
 
 val status_code : status -> nat
@@ -212,3 +222,7 @@ val enc_state : nat -> state -> nat list
 val enc_result : result -> nat list
 
 val run_case : nat -> nat -> bool -> nat -> op list -> nat list list
+
+val b2n : bool -> nat
+
+val fresh_case : nat -> nat -> bool -> nat -> nat list
